@@ -38,6 +38,10 @@ fn parse() -> Args {
             _ => usage(),
         }
     }
+    if std::env::var("MCTP_NO_EVIDENCE").is_ok() {
+        // set by the self-test tools, which run the checks against modified trees
+        a.no_evidence = true;
+    }
     if let Ok(t) = std::env::var("VERIF_TIER") {
         match t.as_str() {
             "quick" => a.tier = Tier::Quick,
